@@ -131,6 +131,16 @@ Fixpoint incr_chain (t : ttree) (ids : list (Z * Z)) : Prop :=
   | _ => True
   end.
 
+Lemma incr_chain_ext : forall t t' ids, (forall i, nv t' i = nv t i) -> incr_chain t ids -> incr_chain t' ids.
+Proof.
+  intros t t' ids H. induction ids as [|a ids IH]; [auto|]. destruct ids as [|b l]; [auto|].
+  intros Hc. change (nv t a <= nv t b /\ incr_chain t (b :: l)) in Hc. destruct Hc as [H1 H2].
+  change (nv t' a <= nv t' b /\ incr_chain t' (b :: l)). split; [rewrite !H; exact H1 | apply IH; exact H2].
+Qed.
+
+Lemma incr_chain_tail : forall t a l, incr_chain t (a :: l) -> incr_chain t l.
+Proof. intros t a [|b l] H; [exact I|]. cbn [incr_chain] in H. tauto. Qed.
+
 (* encoder-side update of one node *)
 Definition enc_upd (t : ttree) (id : Z * Z) (low : Z) (k : bool) : ttree :=
   tt_with t (tt_nodes t) (set2 (tt_low t) (fst id) (snd id) low) (set2 (tt_known t) (fst id) (snd id) k).
@@ -198,6 +208,15 @@ Definition same_geom (t t' : ttree) : Prop :=
   tt_w t' = tt_w t /\ tt_h t' = tt_h t /\ tt_lw t' = tt_lw t /\ shape (tt_nodes t') = shape (tt_nodes t)
   /\ same_shapes t'.
 
+Lemma same_geom_trans : forall a b c, same_geom a b -> same_geom b c -> same_geom a c.
+Proof.
+  intros a b c [A1 [A2 [A3 [A4 A5]]]] [B1 [B2 [B3 [B4 B5]]]]. unfold same_geom.
+  split; [congruence|]. split; [congruence|]. split; [congruence|]. split; [congruence | exact B5].
+Qed.
+
+Lemma same_geom_refl : forall a, same_shapes a -> same_geom a a.
+Proof. intros a H. unfold same_geom. repeat split; try reflexivity; apply H. Qed.
+
 Lemma nodes_sync : forall ids te td Lin the thd M bs te' rest r more,
   NoDup ids -> same_shapes te -> same_shapes td -> shape (tt_nodes td) = shape (tt_nodes te) ->
   (forall id, In id ids -> node_pre te td the thd M id) ->
@@ -211,5 +230,83 @@ Lemma nodes_sync : forall ids te td Lin the thd M bs te' rest r more,
 Proof.
   induction ids as [|[lv idx] ids IH];
     intros te td Lin the thd M bs te' rest r more Hnd Hse Hsd Hsh Hpre Hch Hin HM He HB.
-  - cbn [tt_enc_nodes] in He. Set Printing All. Check He. Fail injection He. Unset Printing All. inversion He. Show.
-Abort.
+  - cbn [tt_enc_nodes] in He. pose proof (f_equal fst He) as Hbs; pose proof (f_equal snd He) as Hte; cbn [fst snd] in Hbs, Hte; subst bs te'; clear He. cbn [app] in HB.
+    exists td, r. cbn [tt_dec_nodes]. split; [reflexivity|]. split; [exact HB|]. split; [reflexivity|].
+    split; [apply same_geom_refl; exact Hse|]. split; [apply same_geom_refl; exact Hsd|].
+    split; [intros id _; repeat split; reflexivity | intros id []].
+  - cbn [tt_enc_nodes] in He.
+    set (id := (lv, idx)) in *.
+    destruct (Hpre id ltac:(left; reflexivity)) as [Hvid [[Hrl Hrv] [[Hinv Hknown] [Hcond [Hq HlM]]]]].
+    change (get2 (tt_low te) lv idx 0) with (nl te id) in He.
+    change (get2 (tt_nodes te) lv idx 0) with (nv te id) in He.
+    change (get2 (tt_known te) lv idx false) with (nk te id) in He.
+    set (L1 := if Lin >? nl te id then Lin else nl te id) in *.
+    assert (HL1 : L1 <= nv te id /\ (nk te id = true -> L1 = nv te id) /\ L1 <= M /\ nl te id <= L1).
+    { specialize (Hin id ids eq_refl). unfold L1. destruct (Z.gtb_spec Lin (nl te id)).
+      - repeat split; try lia. intros Hk. specialize (Hknown Hk). lia.
+      - repeat split; try lia. exact Hknown. }
+    destruct HL1 as [HL1v [HL1k [HL1M HL1l]]].
+    destruct (tt_enc_loop (loop_fuel L1 the) L1 the (nv te id) (nk te id)) as [[bs1 L2] k2] eqn:Eloop.
+    change (tt_with te (tt_nodes te) (set2 (tt_low te) lv idx L2) (set2 (tt_known te) lv idx k2))
+      with (enc_upd te id L2 k2) in He.
+    destruct (tt_enc_nodes (enc_upd te id L2 k2) ids L2 the) as [bs2 te2] eqn:Erest.
+    cbv beta iota zeta in He.
+    pose proof (f_equal fst He) as Hbs; pose proof (f_equal snd He) as Hte; cbn [fst snd] in Hbs, Hte; subst bs te'; clear He.
+    rewrite <- app_assoc in HB.
+    destruct (node_sync L1 the thd (nv te id) (nk te id) bs1 L2 k2 rest r (bs2 ++ more)
+                ltac:(lia) HL1k Hcond Hq Eloop HB) as [r1 [Edec [HB1 [HL2 [Hk2 [Hk2t HL2m]]]]]].
+    (* the two updated trees *)
+    destruct (enc_upd_facts te id L2 k2 Hse Hvid) as [Fn [Fs [Fw [Fh [Flw [Fl [Fk Fo]]]]]]].
+    assert (Hvid_d : vid td id) by (apply (vid_shape te td); [exact Hsh | exact Hvid]).
+    destruct (dec_upd_facts td id (if k2 then nv te id else 999) L2 Hsd Hvid_d)
+      as [Gn [Gs [Gw [Gh [Glw [Gl [Gv Go]]]]]]].
+    set (te1 := enc_upd te id L2 k2) in *. set (td1 := dec_upd td id (if k2 then nv te id else 999) L2) in *.
+    assert (Hnv1 : forall i, nv te1 i = nv te i) by (intros i; unfold nv; rewrite Fn; reflexivity).
+    apply NoDup_cons_iff in Hnd as [Hnotin Hnd'].
+    assert (Hne : forall i, In i ids -> i <> id) by (intros i Hi E; subst i; contradiction).
+    (* induction hypothesis on the rest of the walk *)
+    destruct (IH te1 td1 L2 the thd (Z.max M the) bs2 te2 rest r1 more Hnd' Fs Gs) as
+      [td' [r' [Edec' [HB' [Hn' [Hg_e [Hg_d [Hfr Hpost]]]]]]]].
+    + rewrite Gn, Fn. exact Hsh.
+    + intros i Hi. destruct (Hpre i ltac:(right; exact Hi)) as [Pv [[Prl Prv] [[Pinv Pk] [Pc [Pq PM]]]]].
+      destruct (Fo i (Hne i Hi)) as [Fl' Fk']. destruct (Go i (Hne i Hi)) as [Gl' Gv'].
+      unfold node_pre, NodeRel, NodeInv. rewrite !Hnv1, Fl', Fk', Gl', Gv'.
+      split; [apply (vid_shape te te1); [rewrite Fn; reflexivity | exact Pv]|].
+      repeat split; try assumption; try lia.
+    + apply (incr_chain_ext te te1); [exact Hnv1|]. apply (incr_chain_tail te id). exact Hch.
+    + intros a l E. subst ids. rewrite Hnv1. cbn [incr_chain] in Hch. destruct Hch as [Hab _]. lia.
+    + lia.
+    + exact Erest.
+    + exact HB1.
+    + (* assemble *)
+      exists td', r'. split.
+      { change (id :: ids) with ((lv, idx) :: ids). cbn [tt_dec_nodes].
+        change (get2 (tt_low td) lv idx 0) with (nl td id).
+        change (get2 (tt_nodes td) lv idx 0) with (nv td id).
+        rewrite <- Hrl, Hrv. fold L1. rewrite Edec. cbn [obind].
+        change (tt_with td (set2 (tt_nodes td) lv idx (if k2 then nv te id else 999))
+                  (set2 (tt_low td) lv idx L2) (tt_known td)) with td1.
+        exact Edec'. }
+      split; [exact HB'|]. split; [rewrite Hn'; exact Fn|].
+      split.
+      { apply (same_geom_trans te te1 te2); [|exact Hg_e]. unfold same_geom.
+        split; [exact Fw|]. split; [exact Fh|]. split; [exact Flw|]. split; [rewrite Fn; reflexivity | exact Fs]. }
+      split.
+      { apply (same_geom_trans td td1 td'); [|exact Hg_d]. unfold same_geom.
+        split; [exact Gw|]. split; [exact Gh|]. split; [exact Glw|]. split; [exact Gn | exact Gs]. }
+      split.
+      { intros i Hi. assert (Hi1 : i <> id) by (intros E; apply Hi; left; symmetry; exact E).
+        assert (Hi2 : ~ In i ids) by (intros E; apply Hi; right; exact E).
+        destruct (Hfr i Hi2) as [A1 [A2 [A3 A4]]]. destruct (Fo i Hi1) as [B1 B2]. destruct (Go i Hi1) as [C1 C2].
+        repeat split; congruence. }
+      intros i [<-|Hi].
+      * (* the node just processed is not touched by the rest of the walk *)
+        destruct (Hfr id Hnotin) as [A1 [A2 [A3 A4]]].
+        unfold node_post, NodeRel, NodeInv.
+        assert (Hnv2 : nv te2 id = nv te id) by (unfold nv; rewrite Hn', Fn; reflexivity).
+        rewrite Hnv2, A1, A2, A3, A4, Fl, Fk, Gl, Gv.
+        repeat split; try lia; try assumption.
+      * destruct (Hpost i Hi) as [P1 [P2 [P3 P4]]]. unfold node_post.
+        split; [exact P1|]. split; [exact P2|]. split; [rewrite <- Hnv1; exact P3|].
+        lia.
+Qed.
